@@ -3,6 +3,10 @@
 import json, subprocess
 
 CHECKS = {
+ "C01": dict(level="exploration", design="§3 C01",
+   technique="exhaustive small-scope enumeration of scheduler worlds x deviation-bounded exploration of candidate-evaluation completion orders (hook H1), judged by an independent kube-scheduler admission oracle",
+   text="Every world in a closed product (catalogs x NodePool configs x existing/in-flight/deleting/unmanaged capacity x daemonsets x policies x all pod batches of <=2 shapes out of 20) is run through the real Provisioner.Schedule and CreateNodeClaims on an in-memory API server, under every completion order of the parallel candidate evaluation within the deviation bound; every placement is re-judged by an oracle that re-implements kube-scheduler's filters from the pods' ORIGINAL specs, on every (instance type, offering) the created NodeClaim permits. Complete within the alphabet; batches >2 (quick) and Go map-iteration order are outside it.",
+   note="Trusted: oracle/admit.go (transcription of kube-scheduler filter semantics), the fake API server, the harness's catalog description (ITSpec). Label constraints are required on every permitted launch, resources on some compatible offering per type."),
  "C12": dict(level="exploration", design="§3 C12",
    technique="exhaustive small-scope enumeration of requirement atoms (pairs, triples, 4-fold products) against a set-semantics oracle on an exact witness universe",
    text="Every pair and triple of requirement atoms from a closed alphabet (8 operators x value sets x bounds incl. MaxInt/MinInt) is pushed through the real Has/Intersection/HasIntersection/Add, and every (A,B) with <=1 atom on a well-known and a custom key through Compatible/Intersects; each result is compared with Kubernetes label-matching semantics on a witness universe on which admitted sets are decided exactly. Complete within the alphabet; says nothing about value lists longer than 2 or more than 3 operands.",
@@ -48,6 +52,6 @@ def main():
     json.dump(m, open("/verif/MANIFEST.json", "w"), indent=1)
     print("claimed:", sorted(CHECKS), "not claimed:", [x["property_id"] for x in na])
 
-HOOK_COMMITS = []
+HOOK_COMMITS = ["336410b99"]
 if __name__ == "__main__":
     main()
